@@ -284,10 +284,19 @@ fn own_name_parameter_checks(ctx: &Ctx) {
         ("k = k => k", "do {\n  v = k\n  k2 = v\n  return [v(9), k2(8), k(7)]\n}", "[9, 8, 7]"),
         ("m = v => v", "do {\n  v = m\n  return v(9)\n}", "9"),
         ("total = (...total) => total", "[5, 6] via total", "[[5, 0], [6, 1]]"),
+        // function values that were never the direct value of an assignment (record field, list element,
+        // result of a factory) bound later under a name equal to one of their captured names: the
+        // binding must not change what they compute - for the alias or for the original access path
+        ("base = 10\nr = {fn: y => base + y}", "[r.fn(1), do {\n  base = r.fn\n  return base(1)\n}, r.fn(1)]", "[11, 11, 11]"),
+        ("k = 5\nfs = [x => x + k]", "[fs[0](1), do {\n  k = fs[0]\n  return k(1)\n}, fs[0](1)]", "[6, 6, 6]"),
+        ("mk = base => (n => [n, base])", "do {\n  base = mk(1)\n  return base(2)\n}", "[2, 1]"),
+        ("mk = base => (n => [n, base])\ng = mk(1)", "[g(2), ((base) => base(2))(g), do {\n  base = g\n  return base(3)\n}, g(4)]", "[[2, 1], [2, 1], [3, 1], [4, 1]]"),
+        ("k = 1\nr = {fn: x => [x, k]}\nh = (k) => r.fn(0)", "[h(9), do {\n  k = r.fn\n  return [k(0), h(8)]\n}]", "[[0, 1], [[0, 1], [0, 1]]]"),
     ];
     for (def, call, want) in cases {
         let mut s = Session::new();
         let d = s.run(def);
+        let _ = &d;
         let got = s.run(call);
         let exp = s.run(want);
         ctx.count(1);
